@@ -316,3 +316,5 @@ H("C17", "css/validation", "VxH_C17_validate", mode="real", reach=["angle", "tra
 H("C07", "css/validation", "VxH_C07_validators", reach=["validated"], bounds="~125 property names x value of 0..1 (thorough 2) tokens over 12 token kinds with small contents", quick={"shards": 6}, thorough={"shards": 12, "time": "2400s", "maxpaths": 8000000})
 H("C07", "css/validation", "VxH_C07_descriptors", reach=["counter-style", "font-face"], bounds="@font-face (9) and @counter-style (11) descriptor names x value of 0..2 tokens over 12 kinds", quick={"shards": 6})
 H("C19", "html/boxes", "VxH_C19_scope", reach=["built"], bounds="body > x-a > x-a1, x-b, x-c; each element one of {nothing, counter-reset c 5, counter-set c 7, counter-increment c 2}; every element prints counters(c, '.')", quick={"maxsteps": 80000000, "shards": 6})
+H("C01", "html/boxes", "VxH_C01_quotes", reach=["built"], bounds="body > x-a > x-b, x-c; ::before/::after of x-a and x-b and ::before of x-c each one of {nothing, open-quote, close-quote, no-open-quote, no-close-quote}; quotes with two pairs (thorough: also one pair)", quick={"maxsteps": 80000000, "shards": 6})
+H("C09", "html/boxes", "VxH_C09_wellformed", reach=["built"], bounds="x-p > x-s > (text, x-i, text, x-j > x-k); display of x-p (2, thorough 3), x-s (3; 4), x-i (9; 19), x-j (5; 19), x-k (3; 4), float and position of x-i (2 each)", quick={"maxsteps": 80000000, "shards": 8}, thorough={"maxsteps": 80000000, "shards": 14})
